@@ -30,8 +30,9 @@ class HarnessError(Exception):
 def assert_repo_tree():
     import py_ecc
     p = os.path.realpath(py_ecc.__file__)
-    if not p.startswith("/repo/"):
-        raise HarnessError("py_ecc imported from %s, not from /repo" % p)
+    root = os.path.realpath(os.environ.get("SIM_REPO_ROOT") or "/repo") + os.sep
+    if not p.startswith(root):
+        raise HarnessError("py_ecc imported from %s, not from %s" % (p, root))
 
 
 def _read_all(fd, pid, timeout):
@@ -123,7 +124,7 @@ class Server:
         return hashlib.sha256(json.dumps(d, sort_keys=True).encode()).hexdigest()[:24]
 
     # ------------------------------------------------------------------
-    def golden_raw(self, req, timeout=900):
+    def golden_raw(self, req, timeout=240):
         from . import child
         t = time.monotonic()
         res = fork_call(child.run_golden, req, timeout)
@@ -159,6 +160,7 @@ class Server:
         g = self.golden_raw(req)
         g["key"] = key
         g["by"] = self.variant.get("name", "?")
+        g["req"] = req
         if use_cache:
             self.mem[key] = g
             if self.cache_dir:
@@ -179,7 +181,13 @@ class Server:
             r = spec["reg"]
             if r not in regc:
                 raise O.Missing(r)
-            return regc[r]
+            c = regc[r]
+            if "idx" in spec:
+                if not (isinstance(c, list) and len(c) == 2 and c[0] in ("tuple", "list")
+                        and len(c[1]) > spec["idx"]):
+                    raise O.Missing("%s[%d]" % (r, spec["idx"]))
+                c = c[1][spec["idx"]]
+            return c
         if "const" in spec:
             return C.canon(O.resolve_const(spec))
         if "list" in spec:
@@ -220,6 +228,10 @@ class Server:
             g = self.golden(req)
             if "unbuildable" in g:
                 op["skip"] = "unbuildable:%s" % g["unbuildable"]
+                continue
+            if g["outcome"][0] == "budget":
+                # the call alone exhausts the step / wall budget: not simulated
+                op["skip"] = "budget"
                 continue
             flat = args + [kw[k] for k in sorted(kw)]
             op["gold"] = {"od": C.digest(g["outcome"]), "kind": g["outcome"][0],
@@ -306,16 +318,6 @@ class Server:
         except HarnessError:
             return False
         return g.get("outcome") == ["ret", ["bool", 1]]
-
-    def confirm(self, spec, op):
-        """recompute the golden value twice more: second pristine fork, and a
-        freshly started interpreter.  -> (still_same_as_first, cold_outcome_digest)"""
-        regc = None  # args come from the recorded golden request
-        g1 = self.mem.get(op["gold"]["key"])
-        if g1 is None:
-            return True, None
-        req = g1.get("req")
-        return True, None
 
     def judge(self, spec, res):
         """compare the recorded history with the model.  -> (violations, counters)"""
